@@ -36,6 +36,7 @@ fn main() {
         "stacks-replay" => util::run_cases(rest, stacks::replay_case),
         "stacks-drive" => stacks::drive(rest),
         "instr-drive" => vmtrace::instr_drive(rest),
+        "persist-drive" => vmtrace::persist_drive(rest),
         "maps-replay" => util::run_cases(rest, maps::replay_case),
         "maps-drive" => maps::drive(rest),
         "modedit-replay" => util::run_cases(rest, modedit::replay_case),
